@@ -153,6 +153,8 @@ type bvEnv struct {
 	p      *Pkg
 	state  []BV                  // current abstract value of each receiver byte
 	locals map[types.Object]BV   // single-assignment uint8 locals
+	consts map[types.Object]int64 // integer parameters of an inlined helper, bound to constant arguments
+	depth  int
 	isObj  func(e ast.Expr) bool // does e denote "the object" (receiver / the one T-typed variable)?
 }
 
@@ -218,8 +220,166 @@ func (p *Pkg) containsObjField(e ast.Node) bool {
 	return found
 }
 
+// constOf evaluates an integer expression made of constants and of the
+// constant-bound parameters of an inlined helper (`1<<width - 1`).
+func (e *bvEnv) constOf(x ast.Expr) (int64, bool) {
+	info := e.p.Info
+	trunc := func(v int64) int64 {
+		if tv, ok := info.Types[x]; ok && tv.Type != nil {
+			if b, ok := tv.Type.Underlying().(*types.Basic); ok {
+				switch b.Kind() {
+				case types.Uint8:
+					return v & 0xff
+				case types.Uint16:
+					return v & 0xffff
+				case types.Uint32:
+					return v & 0xffffffff
+				}
+			}
+		}
+		return v
+	}
+	if tv, ok := info.Types[x]; ok && tv.Value != nil {
+		if v := constant.ToInt(tv.Value); v.Kind() == constant.Int {
+			if i, exact := constant.Int64Val(v); exact {
+				return i, true
+			}
+		}
+		return 0, false
+	}
+	switch n := x.(type) {
+	case *ast.ParenExpr:
+		return e.constOf(n.X)
+	case *ast.Ident:
+		o := info.Uses[n]
+		if v, ok := e.consts[o]; ok && o != nil {
+			return v, true
+		}
+	case *ast.CallExpr:
+		if tv, ok := info.Types[n.Fun]; ok && tv.IsType() && len(n.Args) == 1 {
+			if b, ok := tv.Type.Underlying().(*types.Basic); ok && b.Info()&types.IsInteger != 0 {
+				if v, ok := e.constOf(n.Args[0]); ok {
+					return trunc(v), true
+				}
+			}
+		}
+	case *ast.BinaryExpr:
+		a, ok := e.constOf(n.X)
+		if !ok {
+			return 0, false
+		}
+		b, ok := e.constOf(n.Y)
+		if !ok {
+			return 0, false
+		}
+		switch n.Op {
+		case token.ADD:
+			return trunc(a + b), true
+		case token.SUB:
+			return trunc(a - b), true
+		case token.MUL:
+			return trunc(a * b), true
+		case token.AND:
+			return a & b, true
+		case token.OR:
+			return a | b, true
+		case token.XOR:
+			return trunc(a ^ b), true
+		case token.AND_NOT:
+			return a &^ b, true
+		case token.SHL:
+			if b >= 0 && b < 32 {
+				return trunc(a << uint(b)), true
+			}
+		case token.SHR:
+			if b >= 0 && b < 64 && a >= 0 {
+				return a >> uint(b), true
+			}
+		}
+	}
+	return 0, false
+}
+
+// inlineCall evaluates a call of a pure package helper whose body is a list of
+// single definitions followed by one `return <expr>`: uint8 parameters are
+// bound to abstract bytes, integer parameters to the constant arguments.
+func (e *bvEnv) inlineCall(n *ast.CallExpr) (BV, bool, error) {
+	p := e.p
+	fn := calleeOf(p.Info, n)
+	if fn == nil || fn.Pkg() != p.P.Types || e.depth >= 4 {
+		return BV{}, false, nil
+	}
+	fd := p.FuncObj[fn]
+	if fd == nil || fd.Body == nil || fd.Recv != nil || len(fd.Body.List) == 0 {
+		return BV{}, false, nil
+	}
+	params := paramObjs(p.Info, fd)
+	if len(params) != len(n.Args) {
+		return BV{}, false, nil
+	}
+	rs, ok := fd.Body.List[len(fd.Body.List)-1].(*ast.ReturnStmt)
+	if !ok || len(rs.Results) != 1 {
+		return BV{}, false, nil
+	}
+	callee := &bvEnv{p: p, state: e.state, locals: map[types.Object]BV{}, consts: map[types.Object]int64{}, isObj: e.isObj, depth: e.depth + 1}
+	for i, po := range params {
+		if assignedIn(p.Info, fd.Body, po) {
+			return BV{}, false, nil
+		}
+		if c, ok := e.constOf(n.Args[i]); ok {
+			callee.consts[po] = c
+			if isUint8(po.Type()) && c >= 0 && c <= 255 {
+				callee.locals[po] = bvConst(uint8(c))
+			}
+			continue
+		}
+		if !isUint8(po.Type()) {
+			return BV{}, false, nil
+		}
+		v, err := e.eval(n.Args[i])
+		if err != nil {
+			return BV{}, true, err
+		}
+		callee.locals[po] = v
+	}
+	for _, s := range fd.Body.List[:len(fd.Body.List)-1] {
+		as, ok := s.(*ast.AssignStmt)
+		if !ok || as.Tok != token.DEFINE || len(as.Lhs) != 1 || len(as.Rhs) != 1 {
+			return BV{}, false, nil
+		}
+		o := identObj(p.Info, as.Lhs[0])
+		if o == nil {
+			return BV{}, false, nil
+		}
+		if c, ok := callee.constOf(as.Rhs[0]); ok {
+			callee.consts[o] = c
+			if isUint8(o.Type()) {
+				callee.locals[o] = bvConst(uint8(c))
+			}
+			continue
+		}
+		if !isUint8(o.Type()) {
+			return BV{}, false, nil
+		}
+		v, err := callee.eval(as.Rhs[0])
+		if err != nil {
+			return BV{}, true, err
+		}
+		callee.locals[o] = v
+	}
+	v, err := callee.eval(rs.Results[0])
+	return v, true, err
+}
+
 func (e *bvEnv) eval(x ast.Expr) (BV, error) {
 	info := e.p.Info
+	if len(e.consts) > 0 {
+		if tv, ok := info.Types[x]; ok && tv.Value == nil && isUint8(tv.Type) {
+			if c, ok := e.constOf(x); ok && c >= 0 && c <= 255 {
+				return bvConst(uint8(c)), nil
+			}
+		}
+	}
 	if tv, ok := info.Types[x]; ok && tv.Value != nil {
 		u, ok := constUint(info, x)
 		if !ok || u > 255 {
@@ -255,6 +415,9 @@ func (e *bvEnv) eval(x ast.Expr) (BV, error) {
 					return e.eval(n.Args[0])
 				}
 			}
+		}
+		if v, handled, err := e.inlineCall(n); handled {
+			return v, err
 		}
 		return BV{}, undecidedf(x, "call inside a bit expression")
 	case *ast.UnaryExpr:
@@ -304,10 +467,11 @@ func (e *bvEnv) eval(x ast.Expr) (BV, error) {
 			if err != nil {
 				return BV{}, err
 			}
-			c, ok := constUint(info, n.Y)
-			if !ok {
+			ci, ok := e.constOf(n.Y)
+			if !ok || ci < 0 {
 				return BV{}, undecidedf(x, "shift by a non-constant")
 			}
+			c := uint64(ci)
 			var r BV
 			for i := 0; i < 8; i++ {
 				var src int
